@@ -2,9 +2,15 @@
 // CommandLineArguments and reads the configuration through the getters, (2) runs the real CommandLineTestRunner on a
 // probe registry (console / JUnit / TeamCity outputs replaced by string buffers through the factory methods, the
 // separate-process hook replaced by an in-process stub that counts its calls) and records what was printed (usage /
-// help / neither), which output kind was created, and how often every probe test ran.  One ndjson line per script
+// help / neither), which output kind was created, and how often every probe test ran.  What the RUN gets is observed
+// where the runner applies it: every output the runner creates is a recording output (its verbosity level and colour
+// flag at the start of every test run and at the end), the registry is a recording registry (the seed of every
+// shuffleTests call), and the test terminator / rethrow switch are read after the run.  The millisecond clock
+// (GetPlatformSpecificTimeInMillis, an input of parsing a seedless -s) is the real one or the value of the last
+// `clock' line.  One ndjson line per script
 // line.  Tokens live in exact-size heap blocks, so AddressSanitizer reports any read beyond a token.  Never judges.
 // Usage: cmdline <script.tsv> <log.ndjson>
+//   clock <decimal milliseconds> | clock real  (the platform clock reads this value for the lines that follow)
 //   probe <g> <n> <ign> <g> <n> <ign> ...      (hex strings; defines the probe registry for the lines that follow)
 //   argv <tok> <tok> ...                       (hex bytes, "-" = empty token)
 //   reset
@@ -52,13 +58,39 @@ static void sep_stub(UtestShell* shell, TestPlugin* plugin, TestResult* result)
 
 // Collects what the runner prints.  (StringBufferTestOutput does the same in a SimpleString, which is copied on every append: a
 // vector like -r100 -vv on the probe registry then costs seconds under ASan and eats the deadline that detects real hangs.)
+// It also records what the runner applied to it: verbosity level and colour flag, at the start of every test run and now.
 class BufOutput : public TestOutput
 {
 public:
     std::string text;
+    const char* kind;
+    std::vector<int> atStart;                 // level * 2 + colour at every printTestsStarted
+    explicit BufOutput(const char* k) : kind(k) {}
+    int level() const { return (int) verbose_; }
+    bool colored() const { return color_; }
+    void printTestsStarted() CPPUTEST_OVERRIDE { atStart.push_back(level() * 2 + (colored() ? 1 : 0)); TestOutput::printTestsStarted(); }
     void printBuffer(const char* s) CPPUTEST_OVERRIDE { text += s; }
     void flush() CPPUTEST_OVERRIDE {}
+    std::string json() const
+    {
+        bool same = true;
+        for (size_t k = 0; k < atStart.size(); k++) if (atStart[k] != level() * 2 + (colored() ? 1 : 0)) same = false;
+        return std::string("{\"k\":\"") + kind + "\",\"level\":" + std::to_string(level()) + ",\"color\":" + (colored() ? "true" : "false")
+             + ",\"starts\":" + std::to_string(atStart.size()) + ",\"same\":" + (same ? "true" : "false") + "}";
+    }
 };
+
+// The registry the runner works on: records the seed of every shuffleTests call.
+class RecRegistry : public TestRegistry
+{
+public:
+    std::vector<size_t> seeds;
+    void shuffleTests(size_t seed) CPPUTEST_OVERRIDE { seeds.push_back(seed); TestRegistry::shuffleTests(seed); }
+};
+
+static unsigned long g_clock = 0;
+static unsigned long (*g_real_clock)() = NULL;
+static unsigned long clock_stub() { return g_clock; }
 
 class RecordingRunner : public CommandLineTestRunner
 {
@@ -66,12 +98,20 @@ public:
     std::string kinds;            // output factories called, in order
     std::string package;
     BufOutput* console;
+    std::vector<BufOutput*> outs; // every output created, in order (owned by the runner)
     RecordingRunner(int ac, const char* const* av, TestRegistry* r) : CommandLineTestRunner(ac, av, r), console(NULL) {}
     std::string consoleText() { return console ? console->text : std::string(); }
+    std::string outsJson()
+    {
+        std::string o = "[";
+        for (size_t k = 0; k < outs.size(); k++) o += (k ? "," : "") + outs[k]->json();
+        return o + "]";
+    }
 protected:
-    TestOutput* createTeamCityOutput() CPPUTEST_OVERRIDE { kinds += "teamcity;"; return new BufOutput; }
-    TestOutput* createJUnitOutput(const SimpleString& p) CPPUTEST_OVERRIDE { kinds += "junit;"; package = p.asCharString(); return new BufOutput; }
-    TestOutput* createConsoleOutput() CPPUTEST_OVERRIDE { kinds += "console;"; console = new BufOutput; return console; }
+    BufOutput* made(const char* k) { outs.push_back(new BufOutput(k)); return outs.back(); }
+    TestOutput* createTeamCityOutput() CPPUTEST_OVERRIDE { kinds += "teamcity;"; return made("teamcity"); }
+    TestOutput* createJUnitOutput(const SimpleString& p) CPPUTEST_OVERRIDE { kinds += "junit;"; package = p.asCharString(); return made("junit"); }
+    TestOutput* createConsoleOutput() CPPUTEST_OVERRIDE { kinds += "console;"; console = made("console"); return console; }
     TestOutput* createCompositeOutput(TestOutput* a, TestOutput* b) CPPUTEST_OVERRIDE { kinds += "composite;"; return CommandLineTestRunner::createCompositeOutput(a, b); }
 };
 
@@ -112,11 +152,19 @@ int main(int argc, char** argv)
     setvbuf(out, NULL, _IOLBF, 0);
     vh_install(out);
     PlatformSpecificRunTestInASeperateProcess = sep_stub;
+    g_real_clock = GetPlatformSpecificTimeInMillis;
     std::string line;
     while (vh_readline(in, line)) {
         if (line.empty()) continue;
         std::vector<std::string> f = vh_split(line);
-        if (f[0] == "reset") { g_probe.clear(); fprintf(out, "{\"op\":\"reset\"}\n"); continue; }
+        if (f[0] == "reset") { g_probe.clear(); GetPlatformSpecificTimeInMillis = g_real_clock; fprintf(out, "{\"op\":\"reset\"}\n"); continue; }
+        if (f[0] == "clock") {      // the decimal text is logged as given ("real": empty)
+            bool real = f.size() < 2 || f[1] == "real";
+            if (!real) g_clock = strtoul(f[1].c_str(), NULL, 10);
+            GetPlatformSpecificTimeInMillis = real ? g_real_clock : clock_stub;
+            fprintf(out, "{\"op\":\"clock\",\"ms\":%s}\n", jbytes(real ? std::string() : f[1]).c_str());
+            continue;
+        }
         if (f[0] == "probe") {
             g_probe.clear();
             std::string js = "[";
@@ -147,6 +195,7 @@ int main(int argc, char** argv)
         std::string cfgjs;
         bool acc;
         unsigned long repeat = 0;
+        bool cfgRethrow = true;
         {   // (1) the parser alone
             TestRegistry reg;
             CommandLineArguments args(ac, av);
@@ -165,19 +214,21 @@ int main(int argc, char** argv)
                      args.isJUnitOutput() ? "junit" : args.isTeamCityOutput() ? "teamcity" : args.isEclipseOutput() ? "eclipse" : "?");
             cfgjs = b;
             repeat = (unsigned long) args.getRepeatCount();
+            cfgRethrow = args.isRethrowingExceptions();
             cfgjs += ",\"pkg\":" + jbytes(args.getPackageName().asCharString());
             cfgjs += ",\"gf\":" + jfilters(args.getGroupFilters()) + ",\"nf\":" + jfilters(args.getNameFilters());
         }
         // (2) the runner on the probe registry
         g_ran.assign(g_probe.size(), 0);
         g_seps = 0;
-        std::string printed = "none", kinds, package;
+        std::string printed = "none", kinds, package, outs = "[]", shuf = "{\"n\":0,\"seed\":[],\"same\":true}";
+        bool arethrow = false, acrash = false;
         long rc = 0;
         // a vector outside the documented language may yield an absurd repeat count (e.g. "-r-3"): the statement is about
         // the parser, so the run is skipped there (lvl2 false); documented vectors never get here with repeat > 100
         bool lvl2 = !(acc && repeat > 100);
         if (lvl2) {
-            TestRegistry reg;
+            RecRegistry reg;
             std::vector<UtestShell*> shells;
             for (size_t k = 0; k < g_probe.size(); k++) {
                 UtestShell* s = g_probe[k].ign ? (UtestShell*) new ProbeIgnoredShell(k, g_probe[k].g.c_str(), g_probe[k].n.c_str())
@@ -186,9 +237,19 @@ int main(int argc, char** argv)
                 reg.addTest(s);
             }
             reg.setCurrentRegistry(&reg);
+            // whether the runner applies -e / -ci / -f must be visible whatever the vector says: start from the opposite
+            // of what the parser reported for rethrow, and from the default terminator
+            UtestShell::setRethrowExceptions(!cfgRethrow);
             {
                 RecordingRunner runner(ac, av, &reg);
                 rc = runner.runAllTestsMain();
+                arethrow = UtestShell::isRethrowingExceptions();
+                acrash = dynamic_cast<const CrashingTestTerminator*>(&UtestShell::getCurrentTestTerminator()) != NULL;
+                outs = runner.outsJson();
+                bool sameSeed = true;          // shuffleTests calls: how many, the seed of the first as decimal text, all with that seed?
+                for (size_t k = 1; k < reg.seeds.size(); k++) if (reg.seeds[k] != reg.seeds[0]) sameSeed = false;
+                shuf = "{\"n\":" + std::to_string(reg.seeds.size()) + ",\"seed\":"
+                     + jbytes(reg.seeds.empty() ? std::string() : std::to_string((unsigned long long) reg.seeds[0])) + ",\"same\":" + jb(sameSeed) + "}";
                 std::string text = runner.consoleText();
                 bool usage = text.find("use -h for more extensive help") != std::string::npos;
                 bool help = text.find("Thanks for using CppUTest.") != std::string::npos;
@@ -205,8 +266,10 @@ int main(int argc, char** argv)
         std::string jr = "[";
         for (size_t k = 0; k < g_ran.size(); k++) { jr += (k ? "," : "") + std::to_string(g_ran[k] > 1000000 ? 1000000 : g_ran[k]); }
         jr += "]";
-        fprintf(out, "{\"op\":\"argv\",\"tok\":%s,%s,\"lvl2\":%s,\"printed\":\"%s\",\"outkind\":%s,\"outpkg\":%s,\"seps\":%ld,\"rc\":%ld,\"ran\":%s%s}\n",
+        fprintf(out, "{\"op\":\"argv\",\"tok\":%s,%s,\"lvl2\":%s,\"printed\":\"%s\",\"outkind\":%s,\"outpkg\":%s,\"seps\":%ld,\"rc\":%ld,\"ran\":%s,"
+                     "\"outs\":%s,\"shuf\":%s,\"arethrow\":%s,\"acrash\":%s%s}\n",
                 jt.c_str(), cfgjs.c_str(), jb(lvl2), printed.c_str(), vh_jstr(outkind).c_str(), jbytes(package).c_str(), g_seps, rc > 1000000 ? 1000000 : rc, jr.c_str(),
+                outs.c_str(), shuf.c_str(), jb(arethrow), jb(acrash),
                 g_repbad ? ",\"repbad\":true" : "");
         for (int k = 0; k < ac; k++) free(av[k]);
         free(av);
